@@ -749,6 +749,25 @@ func (h *Handler) checkAuth(w http.ResponseWriter, r *http.Request, user meta2.U
 	return true
 }
 
+// requireAdmin rejects the request with 403 unless authentication is disabled or the
+// authenticated user is an administrator.
+func (h *Handler) requireAdmin(w http.ResponseWriter, user meta2.User) bool {
+	if !h.Config.AuthEnabled {
+		return true
+	}
+	if user == nil {
+		// no users in system
+		h.httpError(w, "error authorizing query: create admin user first or disable authentication", http.StatusForbidden)
+		return false
+	}
+	if !user.AuthorizeUnrestricted() {
+		h.httpError(w, "error authorizing, requires admin privilege only", http.StatusForbidden)
+		h.Logger.Error("authorizing error! requires admin privilege", zap.String("userID", user.ID()))
+		return false
+	}
+	return true
+}
+
 func (h *Handler) serveBackupRun(w http.ResponseWriter, r *http.Request, user meta2.User) {
 	// Check authorization.
 	if ok := h.checkAuth(w, r, user); !ok {
@@ -1714,7 +1733,12 @@ func (h *Handler) serveStatus(w http.ResponseWriter, r *http.Request) {
 	h.writeHeader(w, http.StatusNoContent)
 }
 
-func (h *Handler) failPoint(w http.ResponseWriter, r *http.Request) {
+func (h *Handler) failPoint(w http.ResponseWriter, r *http.Request, user meta2.User) {
+	// Switching fail points controls the server (and is broadcast to store and meta):
+	// administrators only, like /debug/ctrl.
+	if !h.requireAdmin(w, user) {
+		return
+	}
 	point := r.URL.Query().Get("point")
 	flag := r.URL.Query().Get("flag")
 	var err error
